@@ -158,7 +158,15 @@ impl Msg {
 pub struct BodySpec {
     pub style: u8,
     pub extra: String,
+    /// when set: pad the body so that the routed frame (32 byte header + node + lane + body) of
+    /// the message has exactly this many bytes (if the message is not already larger)
+    #[serde(default)]
+    pub size: Option<u32>,
 }
+
+/// Sizes at which buffers in the path change behaviour: byte-channel / codec buffer sizes (4 KiB,
+/// 8 KiB) and the 64 KiB reserve cap of the routed-frame decoders, each -1 / exact / +1.
+pub const SIZE_CLASSES: &[u32] = &[4095, 4096, 4097, 8191, 8192, 8193, 65535, 65536, 65537, 70001, 131073];
 
 #[derive(Clone, Debug, Serialize, Deserialize)]
 pub enum Inj {
@@ -173,7 +181,25 @@ pub enum Inj {
     /// `@auth` / `@deauth` envelopes: valid, documented as not implemented, delivered to no one
     Auth(bool),
     /// a hand-written valid envelope in an alternative (equivalent) Recon surface syntax
-    Valid { k: u8, node: u8, lane: u8, body: BodySpec, style: u8, esc: u64 },
+    Valid {
+        k: u8,
+        node: u8,
+        lane: u8,
+        body: BodySpec,
+        style: u8,
+        esc: u64,
+        /// cut points (fractions of the payload) at which the text message is split into a
+        /// FIN=0 text frame + continuation frames
+        #[serde(default)]
+        frag: Vec<u16>,
+        /// additionally cut exactly where the body starts
+        #[serde(default)]
+        cut_at_body: bool,
+        /// control frames interleaved between the fragments: bit i of `ctl` set = a ping (even i)
+        /// or pong (odd i) after fragment i
+        #[serde(default)]
+        ctl: u8,
+    },
 }
 
 #[derive(Clone, Debug, Serialize, Deserialize)]
@@ -290,7 +316,12 @@ fn arb_names(min: usize, max: usize, prefix: &'static str) -> BoxedStrategy<Vec<
 }
 
 fn arb_body_spec() -> impl Strategy<Value = BodySpec> {
-    (0u8..6, prop_oneof![3 => Just(String::new()), 2 => arb_body()]).prop_map(|(style, extra)| BodySpec { style, extra })
+    (
+        0u8..8,
+        prop_oneof![3 => Just(String::new()), 2 => arb_body()],
+        prop_oneof![400 => Just(None), 3 => proptest::sample::select(&SIZE_CLASSES[..6]).prop_map(Some), 1 => proptest::sample::select(&SIZE_CLASSES[6..]).prop_map(Some)],
+    )
+        .prop_map(|(style, extra, size)| BodySpec { style, extra, size })
 }
 
 fn arb_cap() -> impl Strategy<Value = u16> {
@@ -309,7 +340,15 @@ fn arb_inj() -> impl Strategy<Value = Inj> {
         1 => Just(Inj::Ping),
         1 => any::<bool>().prop_map(Inj::Auth),
         16 => (0u8..8, any::<u8>(), any::<u8>(), arb_body_spec(), 0u8..9, any::<u64>())
-            .prop_map(|(k, node, lane, body, style, esc)| Inj::Valid { k, node, lane, body, style, esc }),
+            .prop_flat_map(|(k, node, lane, body, style, esc)| {
+                (
+                    Just((k, node, lane, body, style, esc)),
+                    prop_oneof![3 => Just(vec![]), 2 => proptest::collection::vec(any::<u16>(), 1..4)],
+                    proptest::bool::weighted(0.3),
+                    prop_oneof![1 => Just(0u8), 2 => any::<u8>()],
+                )
+            })
+            .prop_map(|((k, node, lane, body, style, esc), frag, cut_at_body, ctl)| Inj::Valid { k, node, lane, body, style, esc, frag, cut_at_body, ctl }),
     ]
 }
 
@@ -342,7 +381,7 @@ fn arb_prelude() -> impl Strategy<Value = Vec<Op>> {
             ops.push(Op::AttachDl { side: *side, node: *node, lane: *lane, in_cap: *in_cap, out_cap: *out_cap });
             if *link {
                 // `c` picks the newest live client
-                ops.push(Op::ClientSend { c: u16::MAX, k: (i % 2) as u8, node: 0, lane: 0, body: BodySpec { style: 0, extra: String::new() } });
+                ops.push(Op::ClientSend { c: u16::MAX, k: (i % 2) as u8, node: 0, lane: 0, body: BodySpec { style: 0, extra: String::new(), size: None } });
             }
         }
         if !ops.is_empty() {
@@ -371,9 +410,28 @@ pub fn arb_case(max_ops: usize) -> impl Strategy<Value = Case> {
         ),
         arb_prelude(),
         proptest::collection::vec(arb_op(), 1..max_ops),
+        // a node or lane name so long that even a body-less envelope for (node 0, lane 0) is a
+        // routed frame of one of the boundary sizes
+        prop_oneof![
+            200 => Just(None),
+            2 => (any::<bool>(), proptest::sample::select(&SIZE_CLASSES[..6]), 0u8..3).prop_map(Some),
+            1 => (any::<bool>(), proptest::sample::select(&SIZE_CLASSES[6..9]), 0u8..3).prop_map(Some),
+        ],
     )
         .prop_map(
-            |((seed, nodes, lanes, exists), (duplex_cap, agent_cap, reg_buf, attach_q, find_q, budget, b_has_find), prelude, ops)| Case {
+            |((seed, mut nodes, mut lanes, exists), (duplex_cap, agent_cap, reg_buf, attach_q, find_q, budget, b_has_find), prelude, ops, big)| {
+            if let Some((lane, target, fill)) = big {
+                let fixed = 32 + nodes[0].len() + lanes[0].len();
+                if (target as usize) > fixed {
+                    let pad = ["a", " ", "/"][fill as usize].repeat(target as usize - fixed);
+                    if lane {
+                        lanes[0].push_str(&pad);
+                    } else {
+                        nodes[0].push_str(&pad);
+                    }
+                }
+            }
+            Case {
                 seed,
                 nodes: nodes.into_iter().zip(exists).map(|(n, (a, b))| (n, a, b)).collect(),
                 lanes,
@@ -385,14 +443,17 @@ pub fn arb_case(max_ops: usize) -> impl Strategy<Value = Case> {
                 budget,
                 b_has_find,
                 ops: prelude.into_iter().chain(ops).collect(),
-            },
+            }},
         )
 }
 
 /// The body text of a message: unique per message (carries `tag`) unless the style is "empty".
-fn make_body(spec: &BodySpec, tag: u32) -> String {
+fn make_body(spec: &BodySpec, tag: u32, other: (&str, &str)) -> String {
     let e = spec.extra.as_str();
-    match spec.style % 6 {
+    match spec.style % 8 {
+        // the body is itself the text of an envelope for another path (a lane relaying envelopes / log lines)
+        6 => format!("@event(node:{},lane:{}) {}", lit_canon(other.0), lit_canon(other.1), tag),
+        7 => format!("@command(node:{},lane:{})@m({})", lit_canon(other.0), lit_canon(other.1), tag),
         0 => String::new(),
         1 => format!("{}", tag),
         2 | 5 => {
@@ -426,7 +487,11 @@ struct WireFrame {
 }
 
 fn build_frame(opcode: u8, payload: &[u8], masked: bool) -> Vec<u8> {
-    let mut f = vec![0x80 | opcode];
+    build_frame_fin(opcode, payload, masked, true)
+}
+
+fn build_frame_fin(opcode: u8, payload: &[u8], masked: bool, fin: bool) -> Vec<u8> {
+    let mut f = vec![if fin { 0x80 } else { 0 } | opcode];
     let m = if masked { 0x80u8 } else { 0 };
     if payload.len() < 126 {
         f.push(m | payload.len() as u8);
@@ -455,6 +520,25 @@ struct FrameParser {
 impl FrameParser {
     fn at_boundary(&self) -> bool {
         self.acc.is_empty()
+    }
+    /// Bytes up to the end of the frame in progress, when its header is complete (else 1).
+    fn remaining_in_frame(&self) -> usize {
+        let a = &self.acc;
+        if a.len() < 2 {
+            return 1;
+        }
+        let masked = a[1] & 0x80 != 0;
+        let (ext, len) = match (a[1] & 0x7f) as usize {
+            126 if a.len() >= 4 => (2, u16::from_be_bytes([a[2], a[3]]) as usize),
+            127 if a.len() >= 10 => {
+                let mut b = [0u8; 8];
+                b.copy_from_slice(&a[2..10]);
+                (8, u64::from_be_bytes(b) as usize)
+            }
+            126 | 127 => return 1,
+            n => (0, n),
+        };
+        (2 + ext + if masked { 4 } else { 0 } + len).saturating_sub(a.len()).max(1)
     }
     fn feed(&mut self, bytes: &[u8]) -> Vec<WireFrame> {
         self.acc.extend_from_slice(bytes);
@@ -739,6 +823,10 @@ struct World<'c> {
     ignored_injected: usize,
     max_rounds: usize,
     panicked: [bool; 2],
+    fragmented_injected: usize,
+    ctl_between_fragments: usize,
+    max_frame: usize,
+    cap_floor: usize,
 }
 
 pub const GARBAGE: &[&str] = &[
@@ -770,6 +858,18 @@ pub const GARBAGE: &[&str] = &[
     "@command(node:a lane:b)",
     "@event(node:\"\\ud800\",lane:b)",
 ];
+
+/// Scenarios with very large frames would crawl through 1-byte channels for no extra insight:
+/// they get a floor on every capacity.
+fn is_big(case: &Case) -> bool {
+    case.nodes.iter().any(|(n, _, _)| n.len() > 2000)
+        || case.lanes.iter().any(|l| l.len() > 2000)
+        || case.ops.iter().any(|op| match op {
+            Op::ClientSend { body, .. } | Op::AgentSend { body, .. } => body.size.is_some(),
+            Op::Inject { frame: Inj::Valid { body, .. }, .. } => body.size.is_some(),
+            _ => false,
+        })
+}
 
 fn lit_canon(t: &str) -> String {
     if swimos_model::identifier::is_identifier(t) {
@@ -839,8 +939,9 @@ impl<'c> World<'c> {
     }
 
     fn new(case: &'c Case) -> World<'c> {
-        let (sa, ha) = duplex(case.duplex_cap.max(1));
-        let (sb, hb) = duplex(case.duplex_cap.max(1));
+        let floor = if is_big(case) { 1024 } else { 1 };
+        let (sa, ha) = duplex(case.duplex_cap.max(floor * 4));
+        let (sb, hb) = duplex(case.duplex_cap.max(floor * 4));
         let mut sides = vec![];
         for (i, (stream, raw)) in [(sa, ha), (sb, hb)].into_iter().enumerate() {
             let role = if i == 0 { Role::Server } else { Role::Client };
@@ -899,6 +1000,10 @@ impl<'c> World<'c> {
             ignored_injected: 0,
             max_rounds: 0,
             panicked: [false; 2],
+            fragmented_injected: 0,
+            ctl_between_fragments: 0,
+            max_frame: 0,
+            cap_floor: floor,
         }
     }
 
@@ -1003,6 +1108,7 @@ impl<'c> World<'c> {
     }
 
     fn attach_client(&mut self, side: usize, dl: Option<(usize, usize)>, in_cap: usize, out_cap: usize) {
+        let (in_cap, out_cap) = (in_cap.max(self.cap_floor), out_cap.max(self.cap_floor));
         let (from_tx, from_rx) = byte_channel(nz(out_cap));
         let (done_tx, done_rx) = oneshot::channel();
         let src = self.sources.len();
@@ -1051,11 +1157,24 @@ impl<'c> World<'c> {
         let body = if k.has_body() {
             let tag = self.next_tag;
             self.next_tag += 1;
-            make_body(spec, tag)
+            let on = &self.case.nodes[(node + 1) % self.case.nodes.len()].0;
+            let ol = &self.case.lanes[(lane + 1) % self.case.lanes.len()];
+            let mut body = make_body(spec, tag, (on, ol));
+            if let Some(size) = spec.size {
+                let fixed = 32 + self.case.nodes[node].0.len() + self.case.lanes[lane].len();
+                let want = (size as usize).saturating_sub(fixed);
+                // `{tag,"aaa.."}` / `@m(tag) "aaa.."`: unique, valid Recon, exactly `want` bytes
+                let (pre, post) = if spec.style % 2 == 0 { (format!("{{{},\"", tag), "\"}".to_string()) } else { (format!("@m({}) \"", tag), "\"".to_string()) };
+                if want > pre.len() + post.len() && want > body.len() {
+                    body = format!("{}{}{}", pre, "a".repeat(want - pre.len() - post.len()), post);
+                }
+            }
+            body
         } else {
             String::new()
         };
         let tagged = !body.is_empty();
+        self.max_frame = self.max_frame.max(32 + self.case.nodes[node].0.len() + self.case.lanes[lane].len() + body.len());
         (Msg { k, node: self.case.nodes[node].0.clone(), lane: self.case.lanes[lane].clone(), body }, tagged)
     }
 
@@ -1184,8 +1303,8 @@ impl<'c> World<'c> {
                             format!("side {} resolved node {} again although its agent channel is still open", side, short(node.as_str())),
                         ));
                     }
-                    let (req_tx, req_rx) = byte_channel(nz(self.case.agent_cap));
-                    let (resp_tx, resp_rx) = byte_channel(nz(self.case.agent_cap));
+                    let (req_tx, req_rx) = byte_channel(nz(self.case.agent_cap.max(self.cap_floor)));
+                    let (resp_tx, resp_rx) = byte_channel(nz(self.case.agent_cap.max(self.cap_floor)));
                     let src = self.sources.len();
                     self.sources.push(SrcKind::Agent(self.agents.len()));
                     self.agents.push(Agent { side, node: ni, out: OutHalf::new(resp_tx), inp: InHalf::new(req_rx), live: true, src });
@@ -1260,8 +1379,12 @@ impl<'c> World<'c> {
                 if p.is_empty() {
                     break;
                 }
-                // while an injection waits for the next frame boundary go byte by byte
-                let n = if pending_inject { 1 } else { (max - written).min(p.len()) };
+                // while an injection waits for the next frame boundary do not write past it
+                let n = if pending_inject {
+                    self.sides[to].in_tracker.remaining_in_frame().min(max - written).min(p.len())
+                } else {
+                    (max - written).min(p.len())
+                };
                 p[..n].to_vec()
             };
             let res = {
@@ -1355,7 +1478,7 @@ impl<'c> World<'c> {
                 let t = if *de { "@deauth" } else { "@auth(node:a,lane:b) @INVALID(auth)" };
                 (build_frame(1, t.as_bytes(), masked), Mark::Nothing, "")
             }
-            Inj::Valid { k, node, lane, body, style, esc } => {
+            Inj::Valid { k, node, lane, body, style, esc, frag, cut_at_body, ctl } => {
                 let kind = [K::Link, K::Sync, K::Unlink, K::Command, K::Linked, K::Synced, K::Unlinked, K::Event][(*k % 8) as usize];
                 let ni = pick_index(*node as u16 * 257, self.case.nodes.len());
                 let li = pick_index(*lane as u16 * 257, self.case.lanes.len());
@@ -1363,7 +1486,29 @@ impl<'c> World<'c> {
                 let text = render_env(&msg, *style, *esc);
                 let idx = self.sent.len();
                 self.sent.push(Sent { src: self.injector_src[to], toward: to, msg, tagged, t_sent: None });
-                (build_frame(1, text.as_bytes(), masked), Mark::Sent(idx), "")
+                let payload = text.as_bytes();
+                let mut cuts: Vec<usize> = frag.iter().map(|f| pick_index(*f, payload.len() + 1)).collect();
+                if *cut_at_body && !self.sent[idx].msg.body.is_empty() {
+                    cuts.push(payload.len() - self.sent[idx].msg.body.len());
+                }
+                cuts.sort();
+                if cuts.is_empty() {
+                    (build_frame(1, payload, masked), Mark::Sent(idx), "")
+                } else {
+                    self.fragmented_injected += 1;
+                    let mut bytes = vec![];
+                    let mut start = 0;
+                    for (i, c) in cuts.iter().chain(std::iter::once(&payload.len())).enumerate() {
+                        let last = i == cuts.len();
+                        bytes.extend(build_frame_fin(if i == 0 { 1 } else { 0 }, &payload[start..*c], masked, last));
+                        start = *c;
+                        if !last && (ctl >> (i % 8)) & 1 == 1 {
+                            self.ctl_between_fragments += 1;
+                            bytes.extend(build_frame(if i % 2 == 0 { 9 } else { 10 }, b"keep-alive", masked));
+                        }
+                    }
+                    (bytes, Mark::Sent(idx), "")
+                }
             }
         };
         if invalid {
@@ -1539,6 +1684,9 @@ struct Obs {
     ignored_injected: usize,
     max_rounds: usize,
     panicked: [bool; 2],
+    fragmented_injected: usize,
+    ctl_between_fragments: usize,
+    max_frame: usize,
     /// a downlink / client attachment was still pending after the final drain although the task runs
     stuck: [bool; 2],
 }
@@ -1572,6 +1720,9 @@ fn execute(case: &Case) -> Obs {
             ignored_injected: w.ignored_injected,
             max_rounds: w.max_rounds,
             panicked: w.panicked,
+            fragmented_injected: w.fragmented_injected,
+            ctl_between_fragments: w.ctl_between_fragments,
+            max_frame: w.max_frame,
             stuck,
         }
     })
@@ -2031,6 +2182,24 @@ pub fn check(case: &Case) -> Verdict {
             _ => "invalid:not-an-envelope",
         });
     }
+    // nothing the harness did asks for the connection to end: no invalid frame, no stop signal
+    if obs.poison.is_none() && !obs.panicked[0] && !obs.panicked[1] {
+        for t in 0..2 {
+            if obs.task_done[t] {
+                v.fail(
+                    "sock:closed-without-cause",
+                    format!(
+                        "the task of side {} ended although only valid frames were exchanged; close frames on the wire: {:?}",
+                        t,
+                        (0..2)
+                            .flat_map(|s| obs.wire[s].iter().filter(|f| f.opcode == 8).map(move |f| (s, String::from_utf8_lossy(&f.payload).to_string())))
+                            .collect::<Vec<_>>()
+                    ),
+                );
+                break;
+            }
+        }
+    }
     // every text frame on the wire is a readable envelope of a message somebody sent
     for side in 0..2 {
         for f in &obs.wire[side] {
@@ -2073,5 +2242,10 @@ pub fn check(case: &Case) -> Verdict {
     v.class_if(obs.task_done[0] || obs.task_done[1], "connection-closed");
     v.class_if(obs.max_rounds > 50, "settle>50-rounds");
     v.class_if(case.reg_buf == 1, "reg-buf=1");
+    v.class_if(obs.fragmented_injected > 0, "injected:fragmented");
+    v.class_if(obs.ctl_between_fragments > 0, "injected:control-frame-between-fragments");
+    v.class_if(obs.max_frame >= 4096, "frame>=4KiB");
+    v.class_if(obs.max_frame >= 8192, "frame>=8KiB");
+    v.class_if(obs.max_frame > 65536, "frame>64KiB");
     v
 }
